@@ -9,6 +9,10 @@
 (* bytes relate to the object its name stands for.  Commands:              *)
 (*   store(o)   clean / download: create a temp, write it in bursts,       *)
 (*              (download: compare the hash), rename it into objects/      *)
+(*   adopt(o)   fetch / smudge with a reference (alternates) store that    *)
+(*              has o: hard-link it into objects/ (atomic), or - when the  *)
+(*              two stores are on different filesystems - copy it the way  *)
+(*              store does (lfs.LinkOrCopy -> CopyFileContents)            *)
 (*   repair(o)  fsck: move a corrupt objects/o to bad/o                    *)
 (*   drop(o)    prune: unlink objects/o                                    *)
 (* Variant selects the order of steps: "code" is the order of the code;    *)
@@ -35,6 +39,7 @@ NextJob ==
   /\ alive /\ pc = "next" /\ jobpos <= Len(Job)
   /\ cur' = Job[jobpos].o /\ written' = 0
   /\ pc' = CASE Job[jobpos].cmd = "store"  -> (IF InObjects(Job[jobpos].o) /\ Variant # "in-place" THEN "skip" ELSE "create")
+             [] Job[jobpos].cmd = "adopt"  -> (IF InObjects(Job[jobpos].o) /\ Variant # "in-place" THEN "skip" ELSE "link")
              [] Job[jobpos].cmd = "repair" -> "move"
              [] OTHER -> "unlink"
   /\ UNCHANGED <<files, alive, crashes, jobpos>>
@@ -62,6 +67,14 @@ Rename ==                                    \* os.Rename(tmp, objects/aa/bb/oid
   /\ pc' = IF Variant = "rename-first" THEN "write" ELSE "done1"
   /\ UNCHANGED <<cur, written, alive, crashes, jobpos>>
 
+\* os.Link(reference/o, objects/o): the whole file appears at once ...
+Link == /\ alive /\ pc = "link"
+        /\ files' = files \cup {F("objects", cur, "full")}
+        /\ pc' = "done1"
+        /\ UNCHANGED <<cur, written, alive, crashes, jobpos>>
+\* ... or the link is refused (other filesystem) and the bytes are copied through a temporary file
+LinkRefused == alive /\ pc = "link" /\ pc' = "create" /\ UNCHANGED <<files, cur, written, alive, crashes, jobpos>>
+
 Done1 == alive /\ pc = "done1" /\ pc' = "next" /\ jobpos' = jobpos + 1 /\ UNCHANGED <<files, cur, written, alive, crashes>>
 
 MoveToBad ==                                 \* fsck: os.Rename(objects/o, bad/o)
@@ -81,8 +94,8 @@ Crash == alive /\ crashes < 2 /\ jobpos <= Len(Job) /\ alive' = FALSE /\ crashes
 Rerun == ~alive /\ alive' = TRUE /\ pc' = "next" /\ jobpos' = 1 /\ cur' = "" /\ written' = 0
          /\ UNCHANGED <<files, crashes>>
 
-Next == NextJob \/ Skip \/ CreateTemp \/ WriteBurst \/ Rename \/ Done1 \/ MoveToBad \/ Unlink \/ Crash \/ Rerun
-Spec == Init /\ [][Next]_vars /\ WF_vars(NextJob \/ Skip \/ CreateTemp \/ WriteBurst \/ Rename \/ Done1 \/ MoveToBad \/ Unlink \/ Rerun)
+Next == NextJob \/ Skip \/ Link \/ LinkRefused \/ CreateTemp \/ WriteBurst \/ Rename \/ Done1 \/ MoveToBad \/ Unlink \/ Crash \/ Rerun
+Spec == Init /\ [][Next]_vars /\ WF_vars(NextJob \/ Skip \/ Link \/ LinkRefused \/ CreateTemp \/ WriteBurst \/ Rename \/ Done1 \/ MoveToBad \/ Unlink \/ Rerun)
 
 \* ---- C09 ---------------------------------------------------------------------
 Finished == alive /\ pc = "next" /\ jobpos > Len(Job)
@@ -92,7 +105,7 @@ ObjectsSound == (~alive \/ Finished) =>
      \A f \in files : f.area = "objects" => (f.st = "full" \/ (f.st = "corrupt" /\ \E i \in DOMAIN Job : Job[i] = [cmd |-> "repair", o |-> f.name]))
 LeftoversConfined == \A f \in files : f.st \in {"empty", "partial"} => (alive \/ f.area \in {"tmp", "incomplete"})
 \* after any crashes, the re-run ends in the state of the uninterrupted run
-Expected == {F("objects", Job[i].o, "full") : i \in {k \in DOMAIN Job : Job[k].cmd = "store"}}
+Expected == {F("objects", Job[i].o, "full") : i \in {k \in DOMAIN Job : Job[k].cmd \in {"store", "adopt"}}}
             \cup {F("bad", Job[i].o, "corrupt") : i \in {k \in DOMAIN Job : Job[k].cmd = "repair"}}
 RerunConverges == Finished => {f \in files : f.area \in {"objects", "bad"}} = Expected
 Terminates == <>Finished
